@@ -301,7 +301,7 @@ class Rec:
             return True
         k = self.counts.get(check_id, 0) + 1
         self.counts[check_id] = k
-        if k <= 2:
+        if k <= 1:      # one witness per clause and job; the total is kept in failure_counts
             inp = inputs() if callable(inputs) else inputs
             self.failures.append({"what": check_id, "inputs": dict(inp, check=check_id, tag=self.tag),
                                   "violated": violated if isinstance(violated, list) else [violated]})
@@ -527,7 +527,7 @@ def _strip_notes(state, base_state):
     return st
 
 
-def configs(kinds, ns, tier, ms=None):
+def configs(kinds, ns, tier, ms=None, quick_combos=1):
     """(m, n, kind, n_in, n_out, idx): every m<=n; quick: one (inputs, outputs) combination per wallet, cycling
     through all nine; thorough: all nine for n <= 3, five for n == 4"""
     idx = 0
@@ -541,7 +541,7 @@ def configs(kinds, ns, tier, ms=None):
                     combos = IO_COMBOS if n <= 3 else IO_COMBOS[:5]
                 else:
                     k0 = (idx * 4 + KINDS_MULTI.index(kind) * 3 + n) % 9
-                    combos = [IO_COMBOS[k0], IO_COMBOS[(k0 + 4) % 9]]
+                    combos = [IO_COMBOS[k0], IO_COMBOS[(k0 + 4) % 9]][:quick_combos]
                 for (a, b) in combos:
                     yield m, n, kind, a, b, idx
 
@@ -551,7 +551,7 @@ def job_workflow(kinds, ns, ms=None, quick_skip=False):
         rec = Rec("wallets m-of-n for n in %s%s, kinds %s; %s; every signer subset; %s orders of combine (left and right "
                   "nested) and of sequential signing; finalize/extract for every subset; unknown records in every map"
                   % (list(ns), "" if ms is None else " m in %s" % list(ms), list(kinds),
-                     "all 9 (inputs, outputs) in 1..3 x 1..3 (5 for n=4)" if tier == "thorough" else "two (inputs, outputs) pairs per wallet, cycling over 1..3 x 1..3",
+                     "all 9 (inputs, outputs) in 1..3 x 1..3 (5 for n=4)" if tier == "thorough" else "one (inputs, outputs) pair per wallet, cycling over 1..3 x 1..3",
                      "all" if tier == "thorough" else "up to 6 per subset"))
         rec.tag = "workflow"
         if quick_skip and tier != "thorough":
@@ -772,7 +772,7 @@ def job_lossless(seed, tier):
                 continue
             out = got[1].serialize()
             ost = outcome(S.psbt_parse, out)
-            rec.check("C10.a.lossless." + name, ost[0] == "ok" and ost[1] == s2, dict(inp, reserialised=b64(out)),
+            rec.check("C10.a.lossless." + name, ost[0] == "ok" and S.normalise_utxo(ost[1]) == S.normalise_utxo(s2), dict(inp, reserialised=b64(out)),
                       "records lost or changed by parse -> serialize", key=(case.label, name))
             roundtrip_checks(rec, out, "reserialised " + name, case.label)
     # global xpub records: the 78-byte extended key is data, whatever its version bytes / origin path
@@ -1012,17 +1012,17 @@ def tamper_catalogue(case, st):
     return out
 
 
-def job_describe(kind, n, ms=None, quick_skip=False):
+def job_describe(kind, ns, ms=None, quick_skip=False):
     def run(seed, tier):
-        rec = Rec("%s wallets m-of-%d%s; %s; honest PSBT with change in every position and without change, explicit hdpubkey_map and the "
+        rec = Rec("%s wallets m-of-n for n in %s%s; %s; honest PSBT with change in every position and without change, explicit hdpubkey_map and the "
                   "PSBT's own global xpubs; then the full tampering catalogue (one alteration each, ~45 entries), each judged against "
-                  "spec.review of the same bytes" % (kind, n, "" if ms is None else " m in %s" % list(ms),
+                  "spec.review of the same bytes" % (kind, list(ns), "" if ms is None else " m in %s" % list(ms),
                                                      "all (inputs, outputs) in 1..3 x 1..3 (5 for n=4)" if tier == "thorough" else "two (inputs, outputs) pairs per wallet"))
         if quick_skip and tier != "thorough":
             rec.bound = "n = 4 wallets are explored in the thorough tier only"
             return rec.result()
         rec.tag = "describe"
-        for m, nn, k, a, b, idx in configs((kind,), (n,), tier, ms):
+        for m, nn, k, a, b, idx in configs((kind,), ns, tier, ms, quick_combos=2):
             ids = list(range(seed % 3, seed % 3 + nn))
             hmap = hdpubkey_map(ids)
             # honest, no change
